@@ -35,6 +35,8 @@ def gen(rng, tier):
         seed = rng.randrange(1, 10**9)
         ops = threadgen.mixed_case(rng, seed) if rng.random() < 0.5 else threadgen.silent_case(rng, seed)
         cases.append(("threads", "m%d" % k, ops))
+    for i, ops in enumerate(threadgen.race_cases(rng, 40 if tier == "quick" else 600)):
+        cases.append(("threads", "r%d" % i, ops))
     if tier == "thorough":
         base1 = ["sched 7", "drv run", "usr u1 udp sendto close", "usr u2 todo:0 cancel", "usr stopper waitothers stop", "go"]
         base2 = ["sched 7", "drv steps 3 0", "usr u1 udp close", "usr u2 todo:0 shift:0", "go"]
